@@ -102,6 +102,9 @@ func init() {
 					v = scalarNear(r, pick(r, scalarKinds[:13]), around)
 				}
 				rule := sizeRuleNear(r, measureOf(v))
+				if chance(r, 0.1) {
+					v = asDefinedType(v) // a defined type (type Level int8) is measured like its underlying type
+				}
 				carrier := r.IntN(carCount)
 				if chance(r, 0.4) {
 					carrier = carVar
@@ -158,4 +161,50 @@ func init() {
 			return sizeExh(i, tier)
 		},
 	})
+}
+
+// defined numeric types: the verdict depends on the kind, not on the type's name
+type (
+	NI8  int8
+	NI16 int16
+	NI32 int32
+	NI64 int64
+	NI   int
+	NU8  uint8
+	NU16 uint16
+	NU32 uint32
+	NU64 uint64
+	NU   uint
+	NF32 float32
+	NF64 float64
+)
+
+func asDefinedType(v interface{}) interface{} {
+	switch x := v.(type) {
+	case int8:
+		return NI8(x)
+	case int16:
+		return NI16(x)
+	case int32:
+		return NI32(x)
+	case int64:
+		return NI64(x)
+	case int:
+		return NI(x)
+	case uint8:
+		return NU8(x)
+	case uint16:
+		return NU16(x)
+	case uint32:
+		return NU32(x)
+	case uint64:
+		return NU64(x)
+	case uint:
+		return NU(x)
+	case float32:
+		return NF32(x)
+	case float64:
+		return NF64(x)
+	}
+	return v
 }
